@@ -44,27 +44,43 @@ def run(pid, mod, tier, seed):
     cov = {"trusted_base": list(vlib.TRUSTED_BASE), "suites": {}, "samples": []}
     proof = None
     impl_ok = True
+    gen_ok = True
     try:
         dt = vlib.build_harness()
         cov["harness_build_s"] = round(dt, 1)
-        vlib.run_generators()
     except Broken as b:
         broken.append(b)
         impl_ok = False
     if impl_ok:
         try:
-            proof = vlib.prove(pid, mod.THEOREMS)
+            vlib.run_generators()
         except Broken as b:
+            # a translator that no longer understands the source: the generated model files are stale, so nothing is
+            # proved or corresponded in this run - but the implementation still runs, and the oracles still search it
             broken.append(b)
-        driver_ok = True
-        try:
-            vlib.build_driver()
-        except Broken as b:
-            broken.append(b)
-            driver_ok = False
+            gen_ok = False
+    if impl_ok:
+        driver_ok = gen_ok
+        if gen_ok:
+            try:
+                proof = vlib.prove(pid, mod.THEOREMS)
+            except Broken as b:
+                broken.append(b)
+            try:
+                vlib.build_driver()
+            except Broken as b:
+                broken.append(b)
+                driver_ok = False
         evals = 0
         nontriv = set()
-        for spec in mod.suites(rng, tier):
+        try:
+            specs = list(mod.suites(rng, tier))
+        except Exception as e:          # a suite generator that needs the (stale) generated tables
+            if gen_ok:
+                raise
+            specs = []
+            broken.append(Broken("suites", f"suite generation failed after a translator failure: {e!r}"))
+        for spec in specs:
             suite, lines = spec["suite"], spec["lines"]
             if spec.get("model_only"):
                 # a statistic computed by the extracted model alone (e.g. how many generated worlds satisfy the
